@@ -48,3 +48,9 @@ Print Assumptions schedule_internal_task_life_src.
 Theorem schedule_internal_nested_not_freed_on_stack_src : nested_ok exec_range_src = true.
 Proof. exact src_nested_ok. Qed.
 Print Assumptions schedule_internal_nested_not_freed_on_stack_src.
+
+(* WakeThreads reads m_NumThreadsWaiting behind a full barrier and WaitForTasks increments it atomically before it
+   checks the pipes: no lost wake-up in the store-buffer litmus *)
+Theorem schedule_internal_no_lost_wakeup_src : lost_wakeup_possible wake_fenced_src wait_fenced_src = false.
+Proof. exact src_no_lost_wakeup. Qed.
+Print Assumptions schedule_internal_no_lost_wakeup_src.
